@@ -341,7 +341,7 @@ func Run(tier, replay string) {
 		"NewNames": `{""}`, "SetNames": `{"y"}`, "InstRes": `{"value"}`,
 		"TermKinds": `{"ret", "br", "invoke", "callbr", "catchswitch"}`}
 	if tier == "thorough" {
-		wide["MaxCalls"] = "6"
+		wide["MaxCalls"] = "5"
 		wide["MaxBlocks"] = "2"
 	}
 	ems = append(ems, &emission{label: "terminators", consts: wide})
@@ -386,7 +386,7 @@ func Run(tier, replay string) {
 		"SetNames": `{"", "x", "y"}`, "InstRes": `{"value"}`, "Observers": `{"PrintModule", "PrintFunc"}`}
 	if tier == "thorough" {
 		blockaddr["MaxCalls"] = "6"
-		operands["MaxCalls"] = "7"
+		operands["MaxInsts"] = "2"
 		names["MaxCalls"] = "6"
 	}
 	ems = append(ems, &emission{label: "blockaddr", consts: blockaddr})
